@@ -34,3 +34,75 @@ Theorem rebind_refuted_type_checking :
   let l := [mkB BImport true false; mkB BAssign true true] in
   gap_rebind l = true /\ visit_all l = Some BImport /\ run_all l = Some BAssign.
 Proof. repeat split; reflexivity. Qed.
+
+(* ================================================================================================ *)
+(* conditions                                                                                        *)
+
+(* a statement the visitor reads as type-checking-only is never executed *)
+Lemma guarded_not_taken p : place_guarded p = true -> place_taken p = false.
+Proof. destruct p as [|c|c|]; try discriminate; destruct c; try discriminate; reflexivity. Qed.
+
+Lemma visit_c_kind st s : option_map fst (visit_step_c st s) = visit_step (option_map fst st) (lower s).
+Proof.
+  unfold visit_step_c, visit_step, lower. simpl. destruct (c_kind s); try reflexivity.
+  destruct st as [[k g]|]; simpl; [|reflexivity]. destruct (place_branch (c_place s)); reflexivity.
+Qed.
+
+Lemma visit_all_c_kind_from l : forall st,
+  option_map fst (fold_left visit_step_c l st) = fold_left visit_step (map lower l) (option_map fst st).
+Proof.
+  induction l as [|s r IH]; intros st; [reflexivity|]. simpl. rewrite IH, visit_c_kind. reflexivity.
+Qed.
+
+(* the member kept is a runtime one as long as the visitor skips exactly what CPython skips *)
+Lemma kept_is_runtime_from l : forall st,
+  branches_in_step (option_map fst st) (map lower l) = true ->
+  (forall k g, st = Some (k, g) -> g = true) ->
+  forall k g, fold_left visit_step_c l st = Some (k, g) -> g = true.
+Proof.
+  induction l as [|s r IH]; intros st Hb Hst k g H; [exact (Hst k g H)|].
+  simpl in Hb. apply andb_prop in Hb. destruct Hb as [Ht Hr]. apply Bool.eqb_prop in Ht.
+  simpl in H. apply (IH (visit_step_c st s)) with (k := k); auto.
+  - rewrite visit_c_kind. exact Hr.
+  - intros k' g' E. unfold visit_step_c in E.
+    assert (Hfresh : Some (c_kind s, negb (place_guarded (c_place s))) = Some (k', g') -> skipped (option_map fst st) (lower s) = false -> g' = true).
+    { intros E' Hs. inversion E'; subst. simpl in Ht. rewrite Hs in Ht. simpl in Ht.
+      destruct (place_guarded (c_place s)) eqn:G; [|reflexivity].
+      rewrite (guarded_not_taken _ G) in Ht. discriminate. }
+    unfold skipped, lower in *. simpl in *.
+    destruct (c_kind s); try (apply Hfresh; [exact E|reflexivity]).
+    assert (Hi : is_some (option_map fst st) = is_some st) by (destruct st as [[? ?]|]; reflexivity).
+    rewrite Hi in *.
+    destruct (is_some st && place_branch (c_place s)) eqn:Es.
+    + exact (Hst k' g' E).
+    + apply Hfresh; [exact E|reflexivity].
+Qed.
+
+(* every list of imports / definitions / assignments of one name, each directly in the body, in an `if` / `else` on
+   TYPE_CHECKING, its negation or a version test, or in an `except` handler: unless the decidable predicate gap_cond
+   holds, the visitor keeps a runtime member of the kind that survives when the body is executed *)
+Theorem rebind_cond_agree l :
+  gap_cond l = false ->
+  option_map fst (visit_all_c l) = run_all (map lower l) /\
+  (forall k g, visit_all_c l = Some (k, g) -> g = true).
+Proof.
+  intros H. split.
+  - unfold visit_all_c. rewrite (visit_all_c_kind_from l None). apply rebind_agree. exact H.
+  - unfold gap_cond, gap_rebind in H. apply negb_false_iff in H.
+    apply (kept_is_runtime_from l None H). intros k g E. discriminate.
+Qed.
+
+Example rebind_cond_nonvacuous :
+  gap_cond [mkC BImport (PThen CTrueTest); mkC BAssign (PElse CTrueTest)] = false /\
+  visit_all_c [mkC BImport (PThen CTrueTest); mkC BAssign (PElse CTrueTest)] = Some (BImport, true) /\
+  gap_cond [mkC BImport PTop; mkC BAssign PExcept; mkC BAssign (PThen CFalseTest)] = false.
+Proof. repeat split; reflexivity. Qed.
+
+(* F12 in both spellings: the visitor keeps the type-checking-only import, CPython the assignment *)
+Theorem rebind_cond_refuted :
+  gap_cond [mkC BImport (PThen CTypeChecking); mkC BAssign (PElse CTypeChecking)] = true /\
+  visit_all_c [mkC BImport (PThen CTypeChecking); mkC BAssign (PElse CTypeChecking)] = Some (BImport, false) /\
+  run_all (map lower [mkC BImport (PThen CTypeChecking); mkC BAssign (PElse CTypeChecking)]) = Some BAssign /\
+  gap_cond [mkC BAssign (PThen CNotTypeChecking); mkC BImport (PElse CNotTypeChecking)] = true /\
+  visit_all_c [mkC BAssign (PThen CNotTypeChecking); mkC BImport (PElse CNotTypeChecking)] = Some (BImport, false).
+Proof. repeat split; reflexivity. Qed.
